@@ -697,7 +697,7 @@ Section PassLemmas.
     fold_left step_vt (vt_phase org cands cur) vt = other_orgs org vt ++ map (pair org) (rem_names cands cur).
   Proof.
     induction cands as [|t r IH]; intros cur vt NE; [congruence|].
-    cbn [vt_phase fold_left step_vt]. rewrite other_orgs_idem.
+    cbn [vt_phase fold_left step_vt].
     destruct r as [|t2 r2].
     - reflexivity.
     - rewrite IH by discriminate. rewrite other_orgs_app, other_orgs_idem, other_orgs_pairs, app_nil_r. reflexivity.
@@ -1414,6 +1414,89 @@ Section PassLemmas.
       - rewrite !canon_dirs by assumption. auto.
       - rewrite !canon_dirs by assumption. auto.
     Qed.
+
+    (* ---- survivors stay searchable across interruption, restart and the repeated pass ---- *)
+    Definition vt_safe (o : Z) (t : N) (e : eff) : Prop :=
+      match e with EVtSet o' l => o' = o -> In t l | EVtTrunc o' => o' <> o | _ => True end.
+
+    Lemma fold_vt_safe o t es : forall vt, Forall (vt_safe o t) es -> In (o, t) vt -> In (o, t) (fold_left step_vt es vt).
+    Proof.
+      induction es as [|e es IH]; intros vt HF Hv; cbn; auto. inversion HF as [|? ? He HF']; subst.
+      apply IH; auto. destruct e; cbn in *; auto.
+      - apply in_or_app. destruct (Z.eq_dec org0 o) as [->|Hne].
+        + right. apply in_map. auto.
+        + left. apply In_other_orgs. auto.
+      - apply In_other_orgs. auto.
+    Qed.
+
+    Lemma novt_vt_safe o t e : novt e -> vt_safe o t e.
+    Proof. destruct e; cbn; tauto. Qed.
+
+    Lemma vt_phase_safe o t cands : forall cur, (o = org -> In t cur /\ ~ In t cands) -> Forall (vt_safe o t) (vt_phase org cands cur).
+    Proof.
+      induction cands as [|a r IH]; intros cur H; cbn; [constructor|].
+      constructor; [exact I|]. constructor.
+      - cbn. intros E. symmetry in E. destruct (H E) as [H1 H2]. apply filter_In. split; auto.
+        apply negb_true_iff, N.eqb_neq. intros ->. apply H2. cbn. auto.
+      - apply IH. intros E. destruct (H E) as [H1 H2]. split.
+        + apply filter_In. split; auto. apply negb_true_iff, N.eqb_neq. intros ->. apply H2. cbn. auto.
+        + intros Hr. apply H2. cbn. auto.
+    Qed.
+
+    Lemma pass_effs_vt_safe s : In s (segmeta st ++ unrot st) -> exp s = false -> In (s_org s, s_table s) (vtables st) ->
+      Forall (vt_safe (s_org s) (s_table s)) (pass_effs hz org st).
+    Proof.
+      intros Hs Ex Hv. rewrite pass_effs_unfold. repeat (apply Forall_app; split).
+      - destruct (log_effs_frame hz org st) as [_ [_ H]]. eapply Forall_impl; [|exact H]. intros e. apply novt_vt_safe.
+      - destruct (met_effs_frame hz org (st_log hz org st)) as [_ [_ H]]. eapply Forall_impl; [|exact H]. intros e. apply novt_vt_safe.
+      - unfold Retention.vt_effs. apply vt_phase_safe. intros Eo.
+        assert (EV : vtables (st_met hz org st) = vtables st).
+        { unfold st_met. destruct (met_frame hz org (st_log hz org st)) as [_ [_ [E _]]]. cbn in E. rewrite E.
+          unfold st_log. destruct (log_frame hz org st) as [_ [_ [E2 _]]]. exact E2. }
+        split.
+        + apply In_org_tables. rewrite EV, <- Eo. exact Hv.
+        + intros HI. apply (Permutation_in _ (ordn_perm _)) in HI. apply filter_In in HI as [_ HI]. apply negb_true_iff in HI.
+          assert (HU : In (s_table s) (in_use (st_met hz org st))).
+          { unfold in_use. apply in_map.
+            assert (E2 : segmeta (st_met hz org st) = filter nexp (segmeta st)).
+            { unfold st_met. destruct (met_frame hz org (st_log hz org st)) as [E _]. cbn in E. rewrite E.
+              unfold st_log. rewrite log_segmeta. unfold sel_log. apply keep_of_filter. apply wf_nd_seg. exact W. }
+            assert (E3 : unrot (st_met hz org st) = unrot st) by (unfold st_met, st_log; rewrite !unrot_apply; reflexivity).
+            rewrite E2, E3. apply in_app_or in Hs. apply in_or_app. destruct Hs as [Hs|Hs]; auto. left.
+            apply filter_In. split; auto. unfold nexp. unfold exp in Ex. rewrite Ex. reflexivity. }
+          assert (existsb (N.eqb (s_table s)) (in_use (st_met hz org st)) = true)
+            by (apply existsb_exists; exists (s_table s); split; auto; apply N.eqb_refl).
+          congruence.
+    Qed.
+
+    Theorem interrupted_survivor_searchable k s :
+      In s (segmeta st ++ mmeta st ++ unrot st) -> exp s = false -> In (s_dir s) (dirs st) ->
+      (s_kind s = KLog -> has_table st s = true) ->
+      searchable (run hz org (restart (interrupted k hz org st))) s = true.
+    Proof.
+      intros Hs Ex Hd Ht. fold (Yk k).
+      assert (HD : In (s_dir s) (dirs (run hz org (Yk k)))) by (apply canon_dirs; auto).
+      assert (NE : nexp s = true) by (unfold nexp; unfold exp in Ex; rewrite Ex; reflexivity).
+      unfold searchable.
+      assert (LOG : In s (segmeta st ++ unrot st) -> s_kind s = KLog /\
+                (has_table (run hz org (Yk k)) s && mem_path (s_dir s) (mem (run hz org (Yk k))) && mem_path (s_dir s) (dirs (run hz org (Yk k))) = true)).
+      { intros Hl. assert (K : s_kind s = KLog) by (apply (wf_log _ W); exact Hl). split; auto.
+        assert (FLs : In s (FL)) by (unfold FL; apply filter_In; auto).
+        apply andb_true_iff. split; [apply andb_true_iff; split|].
+        - apply has_table_In. specialize (Ht K). apply has_table_In in Ht.
+          apply run_vt_keeps.
+          + change (vtables (Yk k)) with (vtables (interrupted k hz org st)). unfold Retention.interrupted.
+            rewrite vtables_apply. apply fold_vt_safe; auto. apply Forall_firstn. apply pass_effs_vt_safe; auto.
+          + unfold sel_log. rewrite keep_of_filter by apply Yk_seg_nd. fold nexp. rewrite Yk_seg_filter.
+            change (unrot (Yk k)) with (@nil seg). rewrite app_nil_r. apply in_map. exact FLs.
+        - apply mem_path_In. apply canon_mem. apply in_map. exact FLs.
+        - apply mem_path_In. exact HD. }
+      apply in_app_or in Hs as [Hs|Hs]; [|apply in_app_or in Hs as [Hs|Hs]].
+      - destruct LOG as [K H]; [apply in_or_app; auto|]. rewrite K. exact H.
+      - rewrite (wf_met _ W s Hs). apply andb_true_iff. split; apply mem_path_In; auto.
+        apply canon_mmem. apply in_map. unfold FM. apply filter_In. auto.
+      - destruct LOG as [K H]; [apply in_or_app; auto|]. rewrite K. exact H.
+    Qed.
   End Interrupt.
 
   (* ---------------- the full statement under the guard ---------------- *)
@@ -1637,8 +1720,8 @@ Proof.
   - vm_compute. discriminate.
 Qed.
 
-(* index 1 loses its only segment, index 2 keeps one; the pass is stopped between the
-   truncation of the names file and the write of the remaining name *)
+(* index 1 loses its only segment, index 2 keeps one; the pass OF THE CODE BEFORE THE FIX is stopped
+   between the truncation of the names file and the write of the remaining name *)
 Definition w_vt_store : store :=
   mkstore [mkseg [1;2;3;4] KLog 100 100 0 1 []; mkseg [1;5;6;4] KLog 100 900 0 2 []] []
     [[1;2;3;4]; [1;5;6;4]] []
@@ -1650,7 +1733,9 @@ Lemma names_file_truncated_witness :
   wf w_vt_store = true /\ In w_vt_seg (segmeta w_vt_store) /\ expired 500 0 w_vt_seg = false /\
   searchable w_vt_store w_vt_seg = true /\
   searchable (run idl idl idl 500 0 (restart w_vt_store)) w_vt_seg = true /\
-  searchable (run idl idl idl 500 0 (restart (interrupted idl idl idl 5 500 0 w_vt_store))) w_vt_seg = false.
+  searchable (run_unfixed idl idl idl 500 0 (restart (interrupted_unfixed idl idl idl 5 500 0 w_vt_store))) w_vt_seg = false /\
+  (* the repaired pass does not bring the names back either *)
+  searchable (run idl idl idl 500 0 (restart (interrupted_unfixed idl idl idl 5 500 0 w_vt_store))) w_vt_seg = false.
 Proof. repeat split; try (vm_compute; reflexivity). vm_compute. auto. Qed.
 
 (* two expired metrics segments, one of them not yet in the in-memory metadata: neither is removed *)
